@@ -126,7 +126,10 @@ fn normalized_escaped_char_q(input: Span) -> PResult<String> {
 fn selector_plain_part(input: Span) -> PResult<String> {
     fold_many1(
         verify(take_char, |ch| {
-            ch.is_alphanumeric() || *ch == '-' || *ch == '_'
+            ch.is_alphanumeric()
+                || *ch == '-'
+                || *ch == '_'
+                || u32::from(*ch) >= 0x80
         }),
         String::new,
         |mut acc, chr: char| {
